@@ -16,7 +16,7 @@ from symx.api import us_of
 from .common import country_of
 
 PROPS = ("C11", "C12")
-BUDGET = {"quick": 900, "thorough": 3000}
+BUDGET = {"quick": 900, "thorough": 1500}
 CHUNK = 200
 
 M, O = True, False
